@@ -166,11 +166,18 @@ pub(crate) fn run(seed: u64, n: u64, out: &mut Out) {
                 if rng.chance(1, 3) && !a.is_empty() { a.pop(); }
                 Some(b.as_builder().args(Bytes::from(a).pack()).build())
             } else { None };
-            let rr = |rng: &mut Rng, hi: u64| -> Option<[u64; 2]> { if rng.chance(1, 4) { let a = if rng.chance(1, 2) { 0 } else { rng.range(0, hi) }; let b = if rng.chance(1, 2) { hi + 2 } else { rng.range(0, hi + 2) }; Some([a, b]) } else { None } };
+            // ranges are half open; the empty ones ([0,0), [a,a)), inverted ones and one-element ones at the lower end ([0,1)) are strata of their own
+            let rr = |rng: &mut Rng, hi: u64| -> Option<[u64; 2]> { if rng.chance(1, 3) { match rng.below(10) {
+                0 => Some([0, 0]),
+                1 => { let a = rng.range(0, hi); Some([a, a]) }
+                2 => { let a = rng.range(1, hi + 1); Some([a, rng.range(0, a - 1)]) }
+                3 => Some([0, 1]),
+                _ => { let a = if rng.chance(1, 2) { 0 } else { rng.range(0, hi) }; let b = if rng.chance(1, 2) { hi + 2 } else { rng.range(0, hi + 2) }; Some([a, b]) }
+            } } else { None } };
             let f_len = if with_filter { rr(&mut rng, 45) } else { None };
             let kind = rng.below(4); // 0 cells, 1 txs ungrouped, 2 txs grouped, 3 capacity
             let f_data = if with_filter { if kind == 3 && rng.chance(1, 2) { let a = rng.range(0, 9); Some([a, a + rng.range(1, 6)]) } else { rr(&mut rng, 9) } } else { None };
-            let f_cap = if with_filter { match rng.below(3) { 0 => Some([0u64, 1000]), 1 => Some([1000, 6_100_000_001]), _ => None } } else { None };
+            let f_cap = if with_filter { match rng.below(5) { 0 => Some([0u64, 1000]), 1 => Some([1000, 6_100_000_001]), 2 => Some([0u64, 0]), 3 => Some([0u64, 1]), _ => None } } else { None };
             // block ranges often: with a prefix search over several scripts the keys are NOT ordered by block number
             let f_block = if with_filter { match rng.below(3) { 0 => None, 1 => rr(&mut rng, 10), _ => { let a = rng.range(0, 8); Some([a, a + rng.range(1, 6)]) } } } else { None };
             let tag: u8 = match (kind, is_lock) { (0, true) | (3, true) => 32, (0, false) | (3, false) => 64, (_, true) => 96, (_, false) => 128 };
